@@ -461,6 +461,11 @@ func (fc *FuncContract) mentions(prop string) bool {
 			return true
 		}
 	}
+	for _, c := range fc.Sites {
+		if hasProp(c.Props, prop) {
+			return true
+		}
+	}
 	return false
 }
 
